@@ -64,6 +64,18 @@ def one(ref: Path, props: list[str], base: dict) -> tuple[str, list[str], list[s
                 bad += [f"    {x}" for x in rep[:8]]
             elif (sig.get("obligations"), sig.get("indexed")) != (bsig.get("obligations"), bsig.get("indexed")):
                 notes.append(f"{pr}: obligations {bsig.get('obligations')}->{sig.get('obligations')}")
+        if "--update-meta" in sys.argv and not props:
+            # record the verdict of this evaluation (all properties): the thorough tier treats it as the expectation and reports only
+            # regressions; DESIGN.md's table is generated from it
+            import json
+
+            mp = ref / "meta.json"
+            meta = json.loads(mp.read_text()) if mp.exists() else {}
+            differs = sorted({b.split(":")[0] for b in bad if not b.startswith("    ")})
+            meta["differs_for"] = differs
+            meta["verdict"] = ("SILENT (same exit codes and known findings for all 18 properties)" if not differs else
+                               "DIFFERS for " + ", ".join(differs) + ": " + " / ".join(x.strip() for x in bad)[:900])
+            mp.write_text(json.dumps(meta, indent=1))
         return ref.name, bad, notes
     finally:
         shutil.rmtree(d, ignore_errors=True)
